@@ -46,8 +46,28 @@ Theorem C13_view_in_range_iff : forall v ports fs,
   forall i, (exists w, frame_view v (frames_of v ports fs) i = Ok w) <-> (i < List.length fs)%nat.
 Proof. exact c13_view_ok_iff. Qed.
 
+From Peppi Require Import Gen.FrameTranspose Proofs.FrameTransposeLayout.
+(* ---- the hand-written frame-level transpose_one of Frame / PortData / Data (src/frame/immutable/mod.rs and
+   src/frame/mutable.rs), regenerated (Gen/FrameTranspose.v): the hand model [frame_view] IS the interpretation of the regenerated
+   tables (which column each field of the row view is taken from, the version gate of start / end / items, leader / follower),
+   index errors and panics included; the mutable (in-progress) and immutable (finished) representations have the same tables.
+   [items_present] excludes only frame sets with item offsets but no item columns, which no constructor produces *)
+Theorem C13_frame_view_from_source : forall v fr i, items_present fr ->
+  frame_view v fr i = frame_view_tbl imm_frame_transpose imm_portdata_transpose imm_data_transpose v fr i.
+Proof. exact frame_view_from_source. Qed.
+Theorem C13_frame_view_mutable_from_source : forall v fr i, items_present fr ->
+  frame_view v fr i = frame_view_tbl mut_frame_transpose mut_portdata_transpose mut_data_transpose v fr i.
+Proof. exact frame_view_mutable_from_source. Qed.
+Theorem C13_transpose_tables_agree :
+  mut_data_transpose = imm_data_transpose /\ mut_portdata_transpose = imm_portdata_transpose /\
+  mut_frame_transpose = imm_frame_transpose.
+Proof. exact transpose_tables_agree. Qed.
+
 Print Assumptions C13_tables_identity.
 Print Assumptions C13_parsed_view_is_occurrence.
 Print Assumptions C13_view_in_range_iff.
 Print Assumptions C13_row_view_mutable.
 Print Assumptions C13_row_view_immutable.
+Print Assumptions C13_frame_view_from_source.
+Print Assumptions C13_frame_view_mutable_from_source.
+Print Assumptions C13_transpose_tables_agree.
